@@ -19,6 +19,12 @@ type symref struct {
 	signed bool
 }
 
+// ufref is the address of an element of a table that the harness declared uninterpreted.
+type ufref struct {
+	name string
+	arg  *smt.Term
+}
+
 func (i *interpreter) binop(fr *frame, op token.Token, t, ty types.Type, x, y value) value {
 	_, xs := x.(sym)
 	_, ys := y.(sym)
@@ -69,6 +75,8 @@ func (i *interpreter) unop(fr *frame, instr *ssa.UnOp, x value) value {
 			return load(mustDeref(instr.X.Type()), p)
 		case *symref:
 			return i.symLoad(fr, p)
+		case *ufref:
+			return lower(i.ps.ctx.App("UF32_"+p.name, 32, p.arg), types.Uint32)
 		}
 		panic(fmt.Sprintf("load from %T", x))
 	}
